@@ -51,3 +51,13 @@ func VerifHistory(g *Group) []ChatHistoryEntry {
 func VerifLoaded(name string) *Group {
 	return Get(name)
 }
+
+// VerifMuHeld reports whether somebody holds the group's mutex right now (the `sig` engine's mock member
+// uses it to tell an announcement made under the lock from one made by a detached goroutine).
+func VerifMuHeld(g *Group) bool {
+	if g.mu.TryLock() {
+		g.mu.Unlock()
+		return false
+	}
+	return true
+}
